@@ -101,6 +101,7 @@ pub fn worker_main(spec_path: &str) -> i32 {
             "dap" => crate::dap::run(&spec),
             "layer_b" => crate::layer_b::run(&spec),
             "session" => crate::session::run(&spec),
+            "lib" => crate::libs::run(&spec),
             other => WorkerResult { verdict: "harness_error".into(), detail: format!("unknown mode {other}"), ..Default::default() },
         };
         res.write(&out);
